@@ -106,7 +106,14 @@ claim("C12", "table extraction and agreement (printer escape table vs reader esc
       "(Bytes.offset is not: known finding); (R12c) names are printed unquoted only when they match the grammar's IDENT (pattern equality; no unicode "
       "classification). The escape reader's index arithmetic (\\xNN off-by-one), number formatting and nesting are value-level and not decided.", NOTE, "DESIGN.md §3 C12")
 
-for pid in ["C02","C05","C07","C13"]:
+claim("C13", "TS-SCCP of the encoder under each (strict flag, value type) context with data-dependence of the result on the value; shape descriptors of the wire-format switch",
+      "Decides two information-loss conditions of the codecs: (R13a) for no data value type with more than one inhabitant does FromArrai (strict or "
+      "not) return, on every executable path, a content-independent result with a nil error, and no two singleton types share an image (strict mode "
+      "maps five kinds of set to {}: known findings pinned by the existing tests); (R13b) the server wire format gives disjoint kinds distinct JSON "
+      "shapes (arrays and sets collide: known finding). Round-trip equality itself (number ranges, CSV quoting, YAML scalars, bits) is value-level "
+      "and not decided.", NOTE, "DESIGN.md §3 C13")
+
+for pid in ["C02","C05","C07"]:
     na(pid, "check under construction in this session (see DESIGN.md §3); not claimed until its rules are registered")
 na("C14", "agreement of a hand-written array matcher with strings/bytes over all sequences is a relation between runtime values computed by "
           "loops with data-dependent indices; no sound structural clause with teeth exists (DESIGN.md §3 C14)")
